@@ -1,6 +1,7 @@
 """Execute one schedule document against the real driver, under the simulator.
 
 Execution is a pure function of (schedule document, code under /repo)."""
+import sys
 import traceback
 
 import numpy as np
@@ -14,6 +15,14 @@ from .world import IMPLICIT, World, deep_field_copy, mon_dict, tnum
 MIN_GAP_ULPS = 64
 # documented default of the library (read, not assumed, so that changing it is no alarm)
 DEFAULT_FREQ = getattr(tnum.timemodel, "_timemodel__default_monitor_freq", 10)
+
+
+class _NullOut:
+    def write(self, s):
+        return len(s)
+
+    def flush(self):
+        pass
 
 
 class OpRecord:
@@ -455,6 +464,8 @@ class Executor:
             ts_arg = list(ts)
         mons = self._mons(op, s)
         directives = {"dtlocal": True} if r.dtlocal else {}
+        if op.get("dir", {}).get("verbose"):
+            directives["verbose"] = True
         r.flush_mode = op.get("flush")
         sink = FlushSink(self.rec, r.flush_mode) if r.flush_mode else None
         # -- candidates as trajectories -----------------------------------
@@ -493,7 +504,10 @@ class Executor:
         # -- the call --------------------------------------------------------
         self.rec.begin_op(i, solver, r.fault_specs)
         fn = solver.solve if r.kind == "solve" else solver.restart
+        saved_stdout = sys.stdout
         try:
+            if "verbose" in directives:
+                sys.stdout = _NullOut()
             out = fn(f, cfl, ts_arg, **kwargs)
             r.outcome = "returned"
         except BaseException as e:  # noqa
@@ -506,6 +520,8 @@ class Executor:
             if isinstance(e, (KeyboardInterrupt, SystemExit)):
                 self.rec.end_op("raised")
                 raise
+        finally:
+            sys.stdout = saved_stdout
         r.trace = self.rec.end_op(r.outcome)
         # -- observations after ------------------------------------------------
         r.f_after = field_obs(f)
